@@ -712,3 +712,159 @@ func ruleActorSerialDelivery(p *Program, r *Report) {
 		}
 	}
 }
+
+// R17h / R10g: a recovered panic becomes the function's error.  For every module function that has an error result
+// and a deferred handler calling recover(): on the recovered branch the handler stores a non-nil value into the
+// function's named error result (captured, or passed as &err), on every path to the handler's return.  With unnamed
+// results the Return's operands are evaluated before the deferred calls run, so a handler that assigns a local
+// makes the function return (zero, nil): the failed update is acknowledged and a nil value is installed.
+func ruleRecoverToError(p *Program, r *Report) {
+	r.Begin("R17h", "recover-to-error: every function with an error result and a deferred recover() handler has the handler store, on every path of its recovered branch, a non-nil value into the function's named error result (the cell every Return reads after the deferred calls have run) — otherwise a recovered panic returns (zero value, nil) and is treated as success", 4)
+	defer r.End()
+	errT := types.Universe.Lookup("error").Type()
+	for _, fn := range p.RepoFns {
+		res := fn.Signature.Results()
+		if res.Len() == 0 || !types.Identical(res.At(res.Len()-1).Type(), errT) {
+			continue
+		}
+		ForEachInstr(fn, func(ins ssa.Instruction) {
+			d, ok := ins.(*ssa.Defer)
+			if !ok {
+				return
+			}
+			var h *ssa.Function
+			var mc *ssa.MakeClosure
+			switch v := d.Call.Value.(type) {
+			case *ssa.MakeClosure:
+				h, mc = v.Fn.(*ssa.Function), v
+			case *ssa.Function:
+				h = v
+			}
+			if h == nil || h.Blocks == nil {
+				return
+			}
+			var rec *ssa.Call
+			ForEachInstr(h, func(i2 ssa.Instruction) {
+				if c, ok := i2.(*ssa.Call); ok {
+					if b, ok := c.Call.Value.(*ssa.Builtin); ok && b.Name() == "recover" {
+						rec = c
+					}
+				}
+			})
+			if rec == nil {
+				return
+			}
+			r.Fn(FnName(fn))
+			key := "recover@" + FnName(fn)
+			// the function's error result cell: named result Alloc that every Return loads after RunDefers
+			var cell *ssa.Alloc
+			okCell := true
+			nRet := 0
+			ForEachInstr(fn, func(i2 ssa.Instruction) {
+				ret, ok := i2.(*ssa.Return)
+				if !ok {
+					return
+				}
+				nRet++
+				ld, ok := ret.Results[len(ret.Results)-1].(*ssa.UnOp)
+				if !ok {
+					okCell = false
+					return
+				}
+				al, ok := ld.X.(*ssa.Alloc)
+				if !ok || ld.Block() != ret.Block() {
+					okCell = false
+					return
+				}
+				afterDefers := ret.Block() == fn.Recover // the recover block runs after the deferred calls
+				for _, i3 := range ret.Block().Instrs {
+					if _, is := i3.(*ssa.RunDefers); is {
+						afterDefers = true
+					}
+					if i3 == ssa.Instruction(ld) && !afterDefers {
+						okCell = false
+					}
+				}
+				if cell != nil && cell != al {
+					okCell = false
+				}
+				cell = al
+			})
+			if !okCell || cell == nil || nRet == 0 {
+				r.Viol(key, fmt.Sprintf("%s recovers a panic in a deferred handler but its error result is not a named result read after the deferred calls run: whatever the handler assigns, the function returns the values computed before the panic (zero value, nil error) — the failure is reported as success", FnName(fn)), d.Pos())
+				return
+			}
+			// pointers to the cell inside the handler
+			isCellPtr := func(v ssa.Value) bool {
+				switch x := v.(type) {
+				case *ssa.FreeVar:
+					if mc == nil {
+						return false
+					}
+					for i, fv := range h.FreeVars {
+						if fv == x && i < len(mc.Bindings) && mc.Bindings[i] == ssa.Value(cell) {
+							return true
+						}
+					}
+				case *ssa.Parameter:
+					for i, q := range h.Params {
+						if q == x && i < len(d.Call.Args) && d.Call.Args[i] == ssa.Value(cell) {
+							return true
+						}
+					}
+				}
+				return false
+			}
+			storeBlocks := map[*ssa.BasicBlock]bool{}
+			ForEachInstr(h, func(i2 ssa.Instruction) {
+				if st, ok := i2.(*ssa.Store); ok && isCellPtr(st.Addr) && !IsNilConst(st.Val) {
+					storeBlocks[st.Block()] = true
+				}
+			})
+			// recovered branch: the successor taken when recover() != nil
+			var start *ssa.BasicBlock
+			for _, ref := range *rec.Referrers() {
+				bo, ok := ref.(*ssa.BinOp)
+				if !ok {
+					continue
+				}
+				for _, r2 := range *bo.Referrers() {
+					if iff, ok := r2.(*ssa.If); ok {
+						switch bo.Op {
+						case token.NEQ:
+							start = iff.Block().Succs[0]
+						case token.EQL:
+							start = iff.Block().Succs[1]
+						}
+					}
+				}
+			}
+			if start == nil {
+				// type switch / assertion forms: take the handler's entry as the start (every path must store)
+				start = h.Blocks[0]
+			}
+			escapes := false
+			seen := map[*ssa.BasicBlock]bool{}
+			var dfs func(b *ssa.BasicBlock)
+			dfs = func(b *ssa.BasicBlock) {
+				if seen[b] || storeBlocks[b] {
+					return
+				}
+				seen[b] = true
+				if _, isRet := b.Instrs[len(b.Instrs)-1].(*ssa.Return); isRet {
+					escapes = true
+				}
+				for _, s := range b.Succs {
+					dfs(s)
+				}
+			}
+			dfs(start)
+			r.Check(len(storeBlocks) > 0 && !escapes, key, "the handler sets the named error result on every recovered path", fmt.Sprintf("%s recovers a panic but its handler does not store an error into the function's error result on every recovered path: the function then returns (zero value, nil) and the failure is treated as success", FnName(fn)), rec.Pos())
+		})
+	}
+}
+
+func init() {
+	register("C17", Rule{"R17h", ruleRecoverToError})
+	register("C10", Rule{"R17h", ruleRecoverToError})
+}
